@@ -476,6 +476,28 @@ def run_case(case, ctx):  # noqa: C901
                         ctx.violation("load_hex_string-leading-zero-bytes-dropped", {"size": size, "text_bytes": size + len(pre) // 2, "got_len": len(got)})
                     except SPSDKError:
                         pass
+            # "File path to key file or hexadecimal value": an EXISTING file is the key file, also when its name happens
+            # to read as a hexadecimal value of the expected size
+            hexname = os.path.join(d, "cafe")
+            with open(hexname, "w", encoding="utf-8") as f:
+                f.write(key.hex())
+            n += 1
+            try:
+                got = misc.load_hex_string("cafe", size, search_paths=[d])
+            except SPSDKError:
+                got = None
+            if got != key:
+                ctx.violation("load_hex_string-existing-key-file-not-preferred-over-literal",
+                              {"file_name": "cafe", "size": size, "got": got, "file_content_key": key})
+            if size > 2:  # the file holds a longer key than asked for: refused, never the 2-byte literal 0xcafe
+                n += 1
+                try:
+                    got = misc.load_hex_string("cafe", 2, search_paths=[d])
+                    ctx.violation("load_hex_string-existing-key-file-not-preferred-over-literal",
+                                  {"file_name": "cafe", "expected_size": 2, "file_key_size": size, "got": got})
+                except SPSDKError:
+                    pass
+            os.remove(hexname)
             os.remove(p)
             os.remove(pb)
         for bad in ["xyz", "0x12zz"]:
